@@ -5,7 +5,9 @@ mod engine;
 mod lin;
 mod rng;
 mod scen;
+mod pbdecode;
 mod seams;
+mod textparse;
 
 use driver::{CheckOpts, Scenario, Tier, DEFAULT_SEED};
 
@@ -21,12 +23,15 @@ fn scenario(id: &str) -> Option<&'static dyn Scenario> {
         "C07" => &scen::gather::C07,
         "C14" => &scen::gather::C14,
         "C15" => &scen::descs::C15,
+        "C04" => &scen::encode::C04,
+        "C13" => &scen::encode::C13,
+        "C17" => &scen::encode::C17,
         "C09" => &scen::descs::C09,
         _ => return None,
     })
 }
 
-pub const ALL: &[&str] = &["C01", "C02", "C03", "C05", "C06", "C07", "C09", "C10", "C11", "C14", "C15"];
+pub const ALL: &[&str] = &["C01", "C02", "C03", "C04", "C05", "C06", "C07", "C09", "C10", "C11", "C13", "C14", "C15", "C17"];
 
 fn tier_of(s: &str) -> Tier {
     match s {
@@ -40,6 +45,7 @@ fn arg_val(args: &[String], name: &str) -> Option<String> {
 }
 
 fn main() {
+    seams::install_panic_hook();
     let args: Vec<String> = std::env::args().collect();
     let cmd = args.get(1).map(|s| s.as_str()).unwrap_or("");
     let code = match cmd {
